@@ -24,11 +24,18 @@ mod split {
 
 #[dispatch]
 mod split_at {
-    use crate::CelValue;
+    use crate::{CelError, CelResult, CelValue};
 
-    fn split_at(this: String, at: i64) -> Vec<CelValue> {
-        let (left, right) = this.split_at(at as usize);
+    fn split_at(this: String, at: i64) -> CelResult<Vec<CelValue>> {
+        let split = usize::try_from(at)
+            .ok()
+            .and_then(|at| this.split_at_checked(at));
 
-        vec![left.into(), right.into()].into()
+        match split {
+            Some((left, right)) => Ok(vec![left.into(), right.into()]),
+            None => Err(CelError::value(
+                "splitAt() offset is out of range or not on a character boundary",
+            )),
+        }
     }
 }
